@@ -13,7 +13,7 @@ import (
 func init() {
 	register(&Spec{ID: "C14", Title: "Transport failure yields a clean prefix and then an error", Run: runC14,
 		Meta: core.Meta{
-			Explanation: "R14.21 = R02.11, R14.22 = R13.7. R14.19: every nil return of Logout is under the nil edge of its receive call's error. R14.20: SendRemainingPackets calls sendPackets once and returns its error value. R14.17: the delivery of a HeaderOnlyPackage in WritePacket is under Header.Length == PacketHeaderSize. R14.18: every return of Packet.WriteTo behind the Write returns the count that Write reported. R14.16 = R03.6 (NextPackage looks at the package queue before it can fail on a context: packages from completely received packets are delivered before the error). R14.15: tds.ErrEOFAfterZeroRead, ErrNotEnoughBytes, ErrChannelClosed and ErrNoPackageReady are initialised with errors.New — Conn.ReadFrom and tryParsePackage tell the conditions apart with errors.Is, and a sentinel that wraps io.EOF is taken for an orderly end with a complete packet. Decides that the error path from the transport to the consumer is unbroken and that only completely received packets are parsed. R14.1: every transport read (io.Reader.Read / io.ReadFull on the connection) in PacketHeader.ReadFrom and Packet.ReadFrom has its error tested at once and every failure return carries the read error (%w), the error itself or ErrEOFAfterZeroRead — never nil. R14.2: a nil-error return of Packet.ReadFrom is dominated by totalBytes == Header.Length, a nil-error return of PacketHeader.ReadFrom by the full-header read succeeding; every return of Packet.ReadFrom whose error may satisfy errors.Is(err, io.EOF) (which Conn.ReadFrom treats as an orderly end and still parses the packet) lies only on paths where the body is complete or the error is not EOF. R14.3: every CFG cycle that contains a transport read tests a context's Err() with an exit, and every way back to the loop head after a failed read passes a context Err() test (bounded partial-body wait). R14.4: in Conn.ReadFrom every path to WritePacket(packet) has err == nil or errors.Is(err, io.EOF), and conversely every path with err == nil or EOF reaches WritePacket (or reports an unknown channel on Conn.errCh) before it loops or returns; the complementary path sends an error wrapping err on Conn.errCh; the loop ends after an EOF. R14.5: NextPackage receives from Conn.errCh in its blocking select and returns a non-nil error wrapping the received value. R14.6: in NextPackage every path to the blocking select (which offers the error queues) first passes the non-blocking receive from packageCh: packages parsed from completely received packets are delivered before the transport error that followed them. R14.9: in Packet.ReadFrom every context whose Err() decides whether an EOF-like read ends the wait is, on every path, the result of context.WithTimeout(ctx, timeout) with the function's timeout parameter — a wait that is only armed by the first body byte never ends when the peer dies between header and body. R14.10: PacketHeader.ReadFrom, Packet.ReadFrom and Conn.ReadFrom never compare an error with io.EOF by == / != — transports and the readers' own %w wrapping hand on EOFs that only errors.Is recognises, and a missed EOF is either reported instead of the complete packet it came with or (zero-byte EOF) never turned into ErrEOFAfterZeroRead, so the reader ends without queueing an error. R14.11 = R03.2 (the synthetic final DONE is emitted only when the queue is at end of MESSAGE — IsEOM, not merely `all packets consumed` — so a transport that dies on a packet boundary yields an error, not a final DONE). R14.12: in sendPackets the error edge of every sendPacket call reaches a return of a non-nil error without going round the loop again (a `break` that only leaves the select lets the next packet overwrite the error and the message goes out with a hole). R14.13 = R11.5 (every error return of NextPackageUntil returns the error it received, fmt.Errorf(...%w, err), or the EEDError whose WrappedError was set to that error). R14.8: Conn.errCh and Channel.errCh are sent to only on the reader goroutine's path (functions statically reachable from (*Conn).ReadFrom); a consumer-side function (e.g. a failed request write in sendPacket) that also sends there blocks its caller — without looking at the caller's context — as soon as the bounded queue is full, which on a dead transport it is. R14.7: every return of the reader goroutine is under `connection context done` or `errors.Is(err, io.EOF)`; a reader that gives up on other errors stops refilling Conn.errCh and only the first waiter learns that the transport died.",
+			Explanation: "R14.24: every error return of PacketQueue.Bytes is guarded by a condition computed from the requested count n (today the n == 0 shortcut), so Bytes(0) succeeds on an exhausted queue. R14.23: in every function of package tds that returns an error, the non-nil edge of each nil-test of a BytesChannel read's error (followed through phis) reaches error returns only - no second condition beside the test can let a zero-padded result through. R14.21 = R02.11, R14.22 = R13.7. R14.19: every nil return of Logout is under the nil edge of its receive call's error. R14.20: SendRemainingPackets calls sendPackets once and returns its error value. R14.17: the delivery of a HeaderOnlyPackage in WritePacket is under Header.Length == PacketHeaderSize. R14.18: every return of Packet.WriteTo behind the Write returns the count that Write reported. R14.16 = R03.6 (NextPackage looks at the package queue before it can fail on a context: packages from completely received packets are delivered before the error). R14.15: tds.ErrEOFAfterZeroRead, ErrNotEnoughBytes, ErrChannelClosed and ErrNoPackageReady are initialised with errors.New — Conn.ReadFrom and tryParsePackage tell the conditions apart with errors.Is, and a sentinel that wraps io.EOF is taken for an orderly end with a complete packet. Decides that the error path from the transport to the consumer is unbroken and that only completely received packets are parsed. R14.1: every transport read (io.Reader.Read / io.ReadFull on the connection) in PacketHeader.ReadFrom and Packet.ReadFrom has its error tested at once and every failure return carries the read error (%w), the error itself or ErrEOFAfterZeroRead — never nil. R14.2: a nil-error return of Packet.ReadFrom is dominated by totalBytes == Header.Length, a nil-error return of PacketHeader.ReadFrom by the full-header read succeeding; every return of Packet.ReadFrom whose error may satisfy errors.Is(err, io.EOF) (which Conn.ReadFrom treats as an orderly end and still parses the packet) lies only on paths where the body is complete or the error is not EOF. R14.3: every CFG cycle that contains a transport read tests a context's Err() with an exit, and every way back to the loop head after a failed read passes a context Err() test (bounded partial-body wait). R14.4: in Conn.ReadFrom every path to WritePacket(packet) has err == nil or errors.Is(err, io.EOF), and conversely every path with err == nil or EOF reaches WritePacket (or reports an unknown channel on Conn.errCh) before it loops or returns; the complementary path sends an error wrapping err on Conn.errCh; the loop ends after an EOF. R14.5: NextPackage receives from Conn.errCh in its blocking select and returns a non-nil error wrapping the received value. R14.6: in NextPackage every path to the blocking select (which offers the error queues) first passes the non-blocking receive from packageCh: packages parsed from completely received packets are delivered before the transport error that followed them. R14.9: in Packet.ReadFrom every context whose Err() decides whether an EOF-like read ends the wait is, on every path, the result of context.WithTimeout(ctx, timeout) with the function's timeout parameter — a wait that is only armed by the first body byte never ends when the peer dies between header and body. R14.10: PacketHeader.ReadFrom, Packet.ReadFrom and Conn.ReadFrom never compare an error with io.EOF by == / != — transports and the readers' own %w wrapping hand on EOFs that only errors.Is recognises, and a missed EOF is either reported instead of the complete packet it came with or (zero-byte EOF) never turned into ErrEOFAfterZeroRead, so the reader ends without queueing an error. R14.11 = R03.2 (the synthetic final DONE is emitted only when the queue is at end of MESSAGE — IsEOM, not merely `all packets consumed` — so a transport that dies on a packet boundary yields an error, not a final DONE). R14.12: in sendPackets the error edge of every sendPacket call reaches a return of a non-nil error without going round the loop again (a `break` that only leaves the select lets the next packet overwrite the error and the message goes out with a hole). R14.13 = R11.5 (every error return of NextPackageUntil returns the error it received, fmt.Errorf(...%w, err), or the EEDError whose WrappedError was set to that error). R14.8: Conn.errCh and Channel.errCh are sent to only on the reader goroutine's path (functions statically reachable from (*Conn).ReadFrom); a consumer-side function (e.g. a failed request write in sendPacket) that also sends there blocks its caller — without looking at the caller's context — as soon as the bounded queue is full, which on a dead transport it is. R14.7: every return of the reader goroutine is under `connection context done` or `errors.Is(err, io.EOF)`; a reader that gives up on other errors stops refilling Conn.errCh and only the first waiter learns that the transport died.",
 			NotDecided:  "Which prefix of packages is delivered, the spurious-DONE clause and elapsed time are not decided (crash points are not enumerated).",
 			Assumptions: []string{"io.ReadFull returns err == nil only when the buffer was filled (standard library contract)"},
 		}})
@@ -67,6 +67,10 @@ func runC14(r *core.Run) {
 	defer rxOwnership(r, "R14.21")
 	r.Rule("R14.22", "no re-acquisition of a held RWMutex through a callee (R13.7): a failed write is reported, not parked behind a pending Close", 40, true)
 	defer func() { c13Reacquire(r, newLockAnalysis(r.Prog, "tds"), "R14.22") }()
+	r.Rule("R14.23", "a failed read never yields a value: the error test stands alone", 100, false)
+	defer readErrorsDecideAlone(r, "R14.23")
+	r.Rule("R14.24", "a package that ends with an empty value at the end of the data is complete", 1, false)
+	defer zeroBytesSucceed(r, "R14.24")
 
 	eofZero := p.Global("tds", "ErrEOFAfterZeroRead")
 	isEOFZero := func(v ssa.Value) bool {
